@@ -10,7 +10,9 @@
 // stdin : one case per line  {"id":..,"ways":[[[x,y],..],..],"roles":[..],"variants":["rel/def/a/s",..]}
 //         or a tiled case     {"id":..,"tile":{"n":N,"dx":DX},"ways":..,"roles":..,"variants":[..]}
 //         (every way of the motif is repeated N times, shifted by k*DX grid units in x)
-// stdout: one line per case  {"id":..,"ok":true,"runs":[{"v":..,"ret":..,"area":..,"rings":[..],"st":{..},"rep":{..}}]}
+// stdout: one line per case  {"id":..,"ok":true,"runs":[{"v":..,"ret":..,"area":..,"rings":[..],"st":{..},"rep":{..}[,"why":..]}]}
+//         "why" is only a label: when no rings came out although no problem was counted, the run is repeated with
+//         debug_level 1 and the library's own explanation (recursion depth / too many split locations) is recorded.
 #include "common/vh.hpp"
 
 #include <osmium/area/assembler.hpp>
